@@ -76,7 +76,8 @@ def model_part(v, tier, invariants, clauses, props, variants=("A", "B", "C"), se
             i["_key"] = {"variant": variant}
         allinsts += insts
     consts = {"StopCycle": stop or (2 if quick else 3)}
-    tot = AM.run_model(v, DsaBinding(), allinsts, consts, invariants + STRUCT, clauses, props, max_paths=600 if quick else None)
+    tot = AM.run_model(v, DsaBinding(), allinsts, consts, invariants + STRUCT, clauses, props, max_paths=600 if quick else None,
+                       edges_for=(lambda i: True) if quick else (lambda i: AM.weight(i) <= 400))
     v.cov["dsa_model"] = dict(tot, invariants=invariants + STRUCT)
     v.cov["replayed_paths"] = v.cov.get("replayed_paths", 0) + tot["paths"]
     v.cov["replayed_steps"] = v.cov.get("replayed_steps", 0) + tot["steps"]
